@@ -361,6 +361,9 @@ theorem step_refines {n : Node} {s : Spec} (hi : NodeInv n) (hr : Refines n s) (
   | build rate txs =>
     obtain ⟨h1, h2, _⟩ := build_refines hi hr rate txs
     exact ⟨h1, h2⟩
+  | buildFail rate txs =>
+    obtain ⟨h1, h2, _⟩ := build_refines hi hr rate txs
+    exact ⟨h1, h2⟩
   | accept ts txs => exact accept_refines hi hr ts txs
 
 theorem run_refines {n : Node} {s : Spec} (hi : NodeInv n) (hr : Refines n s) (ops : List Op) :
